@@ -261,7 +261,82 @@ fn synthetic_minimizer_shapes(rng: &mut Rng) -> ScannerCfg {
     let lit = |c: char| Re::Lit(c, LitStyle::Verbatim);
     let word = |s: &str| Re::Cat(s.chars().map(lit).collect());
     let ab = || Re::Class(Class { neg: false, set: CSet::Union(vec![Item::Range('a', 'b')]) });
-    match rng.below(6) {
+    match rng.below(9) {
+        // random finite languages: words of 2-4 letters, 2-3 letters to choose from per position, a
+        // random subset of all such words, spread over 1-3 patterns, written flat or factored by
+        // the first letter. The tries of such sets are full of states that differ only in WHICH
+        // class leads to WHICH continuation (x(ac|bd)|y(ad|bc)): what the refinement must keep apart.
+        6..=8 => {
+            let len = rng.range(2, 4);
+            let alpha: Vec<Vec<char>> = (0..len)
+                .map(|_| {
+                    let mut v = vec!['a', 'b', 'c', 'd', 'e', 'f'];
+                    rng.shuffle(&mut v);
+                    v.truncate(rng.range(2, 3));
+                    v
+                })
+                .collect();
+            let mut words: Vec<String> = vec![String::new()];
+            for pos in &alpha {
+                let mut next = Vec::new();
+                for w in &words {
+                    for c in pos {
+                        let mut x = w.clone();
+                        x.push(*c);
+                        next.push(x);
+                    }
+                }
+                words = next;
+            }
+            let npats = rng.range(1, 3);
+            let mut per: Vec<Vec<String>> = vec![Vec::new(); npats];
+            for w in words {
+                if rng.chance(1, 2) {
+                    per[rng.below(npats)].push(w);
+                }
+            }
+            for (i, v) in per.iter_mut().enumerate() {
+                if v.is_empty() {
+                    v.push(["ab", "ba", "cd"][i % 3].to_string());
+                }
+            }
+            let factored = rng.chance(1, 2);
+            let loop_on_last = rng.chance(1, 4);
+            let mk_word = |w: &str| -> Re {
+                let mut items: Vec<Re> = w.chars().map(lit).collect();
+                if loop_on_last {
+                    let last = items.pop().unwrap();
+                    items.push(Re::Plus(Box::new(last)));
+                }
+                if items.len() == 1 { items.pop().unwrap() } else { Re::Cat(items) }
+            };
+            let pats = per
+                .iter()
+                .enumerate()
+                .map(|(i, ws)| {
+                    let re = if factored {
+                        // group by first letter: x(..|..)|y(..|..)
+                        let mut firsts: Vec<char> = ws.iter().map(|w| w.chars().next().unwrap()).collect();
+                        firsts.sort();
+                        firsts.dedup();
+                        let branches: Vec<Re> = firsts
+                            .iter()
+                            .map(|f| {
+                                let tails: Vec<Re> = ws.iter().filter(|w| w.starts_with(*f)).map(|w| mk_word(&w[1..])).collect();
+                                let tail = if tails.len() == 1 { tails.into_iter().next().unwrap() } else { Re::Group(GroupKind::NonCapture, Box::new(Re::Alt(tails))) };
+                                Re::Cat(vec![lit(*f), tail])
+                            })
+                            .collect();
+                        if branches.len() == 1 { branches.into_iter().next().unwrap() } else { Re::Alt(branches) }
+                    } else {
+                        let bs: Vec<Re> = ws.iter().map(|w| mk_word(w)).collect();
+                        if bs.len() == 1 { bs.into_iter().next().unwrap() } else { Re::Alt(bs) }
+                    };
+                    RefPattern { re, tt: i + 1, la: None }
+                })
+                .collect();
+            ScannerCfg::single(pats)
+        }
         // (a|b)*abb style: many equivalent states
         0 => {
             let k = rng.range(1, 4);
@@ -320,12 +395,12 @@ fn synthetic_minimizer_shapes(rng: &mut Rng) -> ScannerCfg {
 
 fn gen_program(rng: &mut Rng, st: &mut Stats) -> Option<ScannerCfg> {
     let p = GenParams::varied(rng);
-    let cfg = match rng.below(10) {
-        0 | 1 => {
+    let cfg = match rng.below(11) {
+        0..=2 => {
             st.count("synthetic_minimizer_shape");
             synthetic_minimizer_shapes(rng)
         }
-        2 | 3 => gen_multi_mode(rng, &p, 30, 3),
+        3 | 4 => gen_multi_mode(rng, &p, 30, 3),
         _ => {
             let mp = ModeParams { min_pats: 1, max_pats: 6, la_percent: 20, by_index: rng.chance(1, 2) };
             gen_single_mode(rng, &p, &mp)
@@ -464,7 +539,7 @@ pub fn run_lang(which: Which, tier: Tier) -> i32 {
         .extra("disagreements_checked", json!(0))
         .assume("the reference side (IR class evaluator, derivative automaton) is the trusted base; regex-syntax converts corpus patterns to IR; named classes are calibrated on the scanner (C08)"),
         Which::C03 => Report::new(
-            "every (automaton before, automaton after) pair recorded by hook H2 during the builds of the C02 workload (every mode and every lookahead automaton of every generated, systematic and corpus program) plus synthetic shapes that stress the refinement ((a|b)*abb-style, a{n} chains, keyword sets sharing suffixes, equal patterns with different token types, identical alternation branches). Per pair: on-the-fly determinisation of both automata over the class ids as letters, accepted token-type sets compared at every reached pair of state sets, rooted at state 0 of both (sufficient; a symbol-level difference is re-checked over characters with the class predicates before it counts), and |after| <= |before|.",
+            "every (automaton before, automaton after) pair recorded by hook H2 during the builds of the C02 workload (every mode and every lookahead automaton of every generated, systematic and corpus program) plus synthetic shapes that stress the refinement ((a|b)*abb-style, a{n} chains, keyword sets sharing suffixes, equal patterns with different token types, identical alternation branches, random finite languages - subsets of all words of 2-4 letters over 2-3 letters per position, spread over 1-3 patterns, flat or factored by the first letter). Per pair: on-the-fly determinisation of both automata over the class ids as letters, accepted token-type sets compared at every reached pair of state sets, rooted at state 0 of both (sufficient; a symbol-level difference is re-checked over characters with the class predicates before it counts), and |after| <= |before|.",
         )
         .floor("minimizer_pairs", 5_000)
         .floor("pairs_where_states_were_removed", 1_000)
